@@ -59,8 +59,15 @@
    PART (b)  COMPOSITION: the proof tree of ValidKeyProof as a grammar of leaf kinds, the verifier as
    structure check /\ range limits /\ XOR rule of every OR node /\ ONE hash over all reconstructed
    commitments /\ the plain checks and round equations of the quasi-safe-prime-product proof, and an
-   adversary who alters leaves, containers, the verifier's context (modulus, bases) and the transport.
-   See the section "Composition" below. *)
+   adversary who alters leaves, containers, the verifier's context (modulus, bases) and the transport
+   (MaxAlt = 1: every single step; MaxAlt = 2: every step followed by one representative of every
+   (node type, kind)).  See the section "PART (b)" below.
+
+   What is NOT modelled: the number theory of the Camenisch-Michels sub-proofs (primality by
+   exponentiation); they are covered structurally - every leaf is bound by the hash.  Reading the code
+   for this module turned up two things the structural view cannot see (reported, not asserted here):
+   expStepB never ties its duplicated multiplier commitment (Bproof.Mul) to the committed base power
+   it stands for, and range-proof results have no lower limit (see LeafDomain). *)
 EXTENDS Integers, Sequences, FiniteSets, TLC
 
 CONSTANTS MaxN,      \* part (a): odd moduli 3..MaxN for the SF / PPP / DPP claims
@@ -385,12 +392,16 @@ CtxFails(n, b) == (IF n = "other" THEN {"hash", "gennaro"} ELSE {}) \cup
 
 InitB == /\ w = [kind |-> "B", v |-> 0]
          /\ pf = [alts |-> {}, n |-> "same", b |-> "same", transport |-> "none"]
-Alter == \E a \in AllAlts : /\ Cardinality(pf.alts) < MaxAlt /\ a \notin pf.alts
+\* one representative alteration per (node type, kind): the second step of a pair is taken from these
+RepAlts == { a \in AllAlts : a = CHOOSE b \in AllAlts : b.t = a.t /\ b.k = a.k }
+Alter == \E a \in (IF pf.alts = {} THEN AllAlts ELSE RepAlts) :
+                            /\ Cardinality(pf.alts) < MaxAlt /\ a \notin pf.alts
                             /\ pf.transport = "none"                           \* alterations happen before the transport
                             /\ pf' = [pf EXCEPT !.alts = @ \cup {a}]
-OtherModulus == pf.n = "same" /\ pf' = [pf EXCEPT !.n = "other"]
-OtherBases == \E b \in CtxBs \ {"same"} : pf.b = "same" /\ pf' = [pf EXCEPT !.b = b]
-RoundTrip == pf.transport = "none" /\ pf' = [pf EXCEPT !.transport = "json"]
+Few == Cardinality(pf.alts) <= 1                     \* context and transport vary around at most one alteration
+OtherModulus == Few /\ pf.n = "same" /\ pf' = [pf EXCEPT !.n = "other"]
+OtherBases == \E b \in CtxBs \ {"same"} : Few /\ pf.b = "same" /\ pf' = [pf EXCEPT !.b = b]
+RoundTrip == Few /\ pf.transport = "none" /\ pf' = [pf EXCEPT !.transport = "json"]
 NextB == (Alter \/ OtherModulus \/ OtherBases \/ RoundTrip) /\ UNCHANGED w
 SpecB == InitB /\ [][NextB]_<<w, pf>>
 
